@@ -151,6 +151,7 @@ DATA = {
     "expr": D("(1,2)", "expr", "1,2"), "hex": D("#HFF", "hex", "255"), "numsuf": D("10 V", "numsuf", "10", "V"),
     "oct": D("#Q17", "hex", "15"), "blk0": D("#10", "blk", ""), "dot": D(".5", "num", ".5"), "dot2": D("-.25e3", "num", "-.25e3"),
     # character data that other layers give a meaning to (<numeric_value> keywords, booleans): plain elements for the dispatcher
+    "numsuf2": D("2.5 mVpk", "numsuf", "2.5", "mVpk"), "chr12": D("ABCDEFGHIJKL", "chr", "ABCDEFGHIJKL"),
     "def": D("DEFault", "chr", "DEFault"), "max": D("MAX", "chr", "MAX"), "on": D("ON", "chr", "ON"),
 }
 
@@ -351,6 +352,9 @@ def fault_units():
     for raw in ["A 1$", "A 'abc", "A #", "A 1,,2", "A #3999ab", "A #H", "A 1 2", "A ABCDEFGHIJKLM", "A \"x\"y", "A 1,", "A 1:2", "A ,1", "A , 1,2"]:
         faults.append(U(["A"], lex="data", raw=raw, h=H(pulls=["req"])))
         faults.append(U(["A"], lex="data", raw=raw, h=H()))
+    # ... and a handler that reads leniently (`while let Ok(Some(x)) = next_optional_..`): a swallowed read error must not hide the fault
+    for raw in ["A 1,", "A 1,:2", "A \xb5", "A 1,,2", "A 'abc", "A 1 2"]:
+        faults.append(U(["A"], lex="data", raw=raw, h=H(pulls=["lopt", "lopt", "lopt"])))
     # a query whose first / middle datum cannot be formatted although later ones can
     faults.append(U(["Bq"], query=True, h=H(items=("\x80", "1"))))
     faults.append(U(["GRP"], query=True, h=H(items=("1", "\x80", "2"))))
@@ -393,7 +397,7 @@ def run_c06(chk, tier, seed):
     cands = cands_for(SMALL, rich=False)
     dl = [[]] + [[k] for k in DATA] + [["num", "str"], ["str", "blk"], ["chr", "hex"], ["expr", "numsuf"], ["blk", "num"], ["str2", "chr"],
                                        ["num", "chr", "str"], ["blk", "expr", "hex"], ["num", "dot"], ["str", "dot2", "dot"], ["expr", "num"], ["expr", "chr", "str"],
-                                       ["num", "def", "num2"], ["def", "max"], ["on", "def"]]
+                                       ["num", "def", "num2"], ["def", "max"], ["on", "def"], ["chr12"], ["num", "chr12"]]
     if th:
         dl += [[a, b] for a in DATA for b in DATA if a != b][:40]
     pulls = [p for n in range(0, 5 if th else 4) for p in itertools.product(["req", "opt"], repeat=n)]
@@ -404,6 +408,9 @@ def run_c06(chk, tier, seed):
             if len(p) <= (3 if th else 2) and len(d) <= 2:
                 small.append(units[-1])
         units.append(U(["Bq"], query=True, data=[DATA[x] for x in d], h=H(pulls=["opt"] * len(d), items=("0",))))
+    many = [DATA["num"], DATA["chr"]] * 128 + [DATA["str"]]        # 257 data elements in one unit
+    for npull in (257, 256, 258):
+        units.append(U(["A"], data=many, h=H(pulls=["req"] * npull)))
     okq = [U(["Bq"], query=True, h=H(items=("7",))), U(["GRP", "X"], data=[DATA["chr"]], h=H(pulls=["req"]))]
     defs = [f"Var == {set_of(units)}", f"Okq == {set_of(okq)}", f"VarSmall == {set_of(small)}"]
     # first / last position with every ending; middle position between two fixed units
@@ -418,7 +425,7 @@ def c10_units(th):
     q = [U(["Bq"], query=True, h=H(items=("7",))),
          U(["Bq"], query=True, h=H(items=("1", "'a;b'", "#13x,y"))),
          U(["GRP"], query=True, h=H(hdr="GRP:Y", items=("42",))),
-         U(["*OPC"], query=True, h=H(items=('"q""r"', "-2.5"))),
+         U(["*OPC"], query=True, h=H(items=('"Unexpected ""x"""', "-2.5"))),   # a long segment before an embedded quote, short ones after it
          U(["GRP", "X"], query=True, h=H(hdr="LONGHEADERXX:X", items=("ON",))),   # two header() calls: a long first level, a short rest (fits where the first does not)
          U(["Bq"], query=True, h=H(items=("", "#12x;"))),       # an empty first datum (still separated by ','); payload ending in the unit separator byte
          U(["GRP"], query=True, h=H(items=("#11,", "#11\n"))),   # ... in the data separator / terminator byte
@@ -435,6 +442,7 @@ def run_c10(chk, tier, seed):
     ft = flatten(SMALL)
     cands = cands_for(SMALL, rich=False)
     q, e = c10_units(th)
+    q = q + [U(["SENS"], query=True, h=H(items=tuple(str(1000 + i) for i in range(260))))]      # more than 256 data elements in one unit
     defs = [f"Q == {set_of(q)}", f"E == {set_of(e)}"]
     k = 5 if th else 3
     run_projection(chk, "C10", "framing", ft, cands, defs, "Q \\cup E", "Q \\cup E", k, ENDINGS, [-1])
@@ -448,7 +456,7 @@ def run_c11(chk, tier, seed):
     ft = flatten(SMALL)
     cands = cands_for(SMALL, rich=False)
     q, e = c10_units(th)
-    conv = U(["A"], data=[DATA[x] for x in ("num2", "numsuf", "expr", "hex", "str", "blk", "chr")], h=H(pulls=["req"] * 7))
+    conv = U(["A"], data=[DATA[x] for x in ("num2", "numsuf", "expr", "hex", "str", "blk", "chr", "numsuf2")], h=H(pulls=["req"] * 8))
     # error/event queue items (with and without extended text) formatted by the library's own Error formatter
     q = q + [U(["SENS"], query=True, h=H(items=('-171,"Invalid expression;ext ""one"""',))),
              U(["SENS", "AC"], query=True, h=H(items=('-113,"Undefined header"', '7,"Custom ""dev"" error;x;y"')))]
